@@ -374,6 +374,9 @@ func condClass(req *Request, h string, j *Judge) string {
 	return "tag"
 }
 
+// PropfindForm classifies the body of a PROPFIND request.
+func PropfindForm(req *Request) string { return propfindForm(req) }
+
 func propfindForm(req *Request) string {
 	if len(req.Body) == 0 {
 		return "none"
@@ -688,7 +691,9 @@ func (j *Judge) copyMove(o *outcome, req *Request, p Norm, n *Node) {
 		if !ref.OK {
 			o.addRefuse(400)
 		} else {
-			if ref.EmptyPath || ref.HasQuery || ref.HasFrag {
+			if ref.EmptyPath || ref.HasQuery || ref.HasFrag || strings.HasPrefix(dv, "//") {
+				// (a scheme-less network-path reference names another authority;
+				// whether its authority part is acceptable is the URL parser's call)
 				o.addAlt(400)
 			}
 			dp = Normalise(ref.Path)
